@@ -588,6 +588,13 @@ class Translator:
                 if node.attr == 'gate_type':
                     return V(f'(gtyp {var.code})', 'gtype')
                 fail(node, 'attribute of a gate outside grammar (the model gate has type and operands only)')
+        if isinstance(base, (ast.Call, ast.Subscript, ast.IfExp)):
+            b = self.expr(base, env, pre)
+            if b.ty == 'gate' and node.attr == 'operands':
+                return V(f'(gops {b.code})', 'labels')
+            if b.ty == 'gate' and node.attr == 'gate_type':
+                return V(f'(gtyp {b.code})', 'gtype')
+            fail(node, f'attribute {node.attr} of a {b.ty}: outside grammar')
         if isinstance(base, ast.Name) and base.id not in env and node.attr in GTYPES and base.id == 'gate':
             fail(node, 'gate.<TYPE>: tseytin.py imports the gate types by name')
         fail(node, 'attribute outside grammar')
